@@ -1051,6 +1051,47 @@ def long_lived_prefilter_pairs():
         out.append((x, (gap + x) * 49 + gap + b"!" + x[1:] + gap + x))      # the 50th candidate is a false one
     return out
 
+def pair_py(x, rank):
+    """Pair::with_ranker for a pure ranker (port of the model's pair_with_ranker)"""
+    r1, i1, r2, i2 = x[0], 0, x[1], 1
+    if rank(r2) < rank(r1):
+        r1, i1, r2, i2 = r2, 1, r1, 0
+    for i, b in list(enumerate(x))[2:255]:
+        if rank(b) < rank(r1):
+            r2, i2 = r1, i1
+            r1, i1 = b, i
+        elif b != r1 and rank(b) < rank(r2):
+            r2, i2 = b, i
+    return i1, i2
+
+def inert_then_halves_pairs(quick):
+    """non-periodic needles > 32 bytes (Two-Way large shift + prefilter). Part A of the haystack plants the two pair
+    bytes at their offsets every `stride` bytes (never a full candidate alignment twice), so the prefilter is called
+    more than 50 times with tiny skips and turns INERT in the middle of the search; part B then holds, for a split
+    point s, needle[s..] directly followed by needle[n - max(s, n-s)..]: a right-factor match followed by a left-factor
+    mismatch, exactly what distinguishes the large-shift loop from the small-period loop once no prefilter resets the
+    state any more (seeded change C10-i). Returns (ranker name, x, h)."""
+    out = []
+    needles = [b"abcdefghijklmnopqrstuvwxyzABCDEFGHIJKLMN", b"the quick brown fox jumps over a lazy dog", bytes(range(40, 77))]
+    for x in needles:
+        n = len(x)
+        for rname, rank in (("id", lambda b: b), ("rev", lambda b: 255 - b)):
+            i1, i2 = pair_py(x, rank)
+            dist = abs(i1 - i2)
+            stride = next(s_ for s_ in range(2, 8) if dist % s_ != 0)
+            for split in range(1, n, 4 if quick else 1):
+                shift = max(split, n - split)
+                keep = n - shift
+                fill = x[(split + 5) % n]
+                hay = bytearray([fill]) * (70 * stride + 2 * n)      # > 50 prefilter calls, < 8 bytes skipped each
+                p_ = 0
+                while p_ + n <= len(hay):
+                    hay[p_ + i1] = x[i1]; hay[p_ + i2] = x[i2]
+                    p_ += stride
+                hay += bytes([fill]) * (3 * n + split) + x[split:] + x[keep:] + bytes([fill]) * (2 * n)
+                out.append((rname, x, bytes(hay)))
+    return out
+
 def stale_memory_pairs(rng, quick):
     """long needles x = (w^3)[:L] with period p = |w| < L (border s = L - p) and haystacks
        filler + C + x[s-k..] + filler, where C is x with one byte of its left part changed and 0 < k < s.
@@ -1105,6 +1146,10 @@ def gen_mm(tier, rng, fwd=True, configs=True):
         else:
             cases.append(f"mm f=rtop x={hexs(x)} h={hexs(h)} a={a}")
             cases.append(f"mm f=rfind x={hexs(x)} h={hexs(h)} a={a}")
+    if fwd and configs:
+        for j, (rk, x, h) in enumerate(inert_then_halves_pairs(quick)):
+            if j % 2 == 0 or not quick:
+                cases.append(f"mm f=find cfg=auto rank={rk} x={hexs(x)} h={hexs(h)} a={(j * 3) % 64}")
     return cases
 
 def oracle_mm(op, kv, res, trace, flags):
@@ -1310,6 +1355,13 @@ def gen_c10(tier, rng):
                     for cfg in ("auto", "none"):
                         k += 1
                         cases.append(f"mm f=find cfg={cfg} rank={rk} cpu=none x={hexs(x)} h={hexs(h)} a={(k * 5) % 64}")
+    # the prefilter turns inert in the middle of a search, then a right-factor match with a left-factor mismatch
+    for (rk, x, h) in inert_then_halves_pairs(quick):
+        k += 1
+        cpu = CPUS[k % 3]
+        cpus = f" cpu={cpu}" if cpu else ""
+        for cfg in ("auto", "none"):
+            cases.append(f"mm f=find cfg={cfg} rank={rk}{cpus} x={hexs(x)} h={hexs(h)} a={(k * 5) % 64}")
     # stale Two-Way memory after a prefilter skip: depends on where the ranker puts the rare bytes
     for (x, h) in stale_memory_pairs(rng, quick):
         k += 1
@@ -1829,6 +1881,14 @@ def gen_c13_escalate(rng):
     """sizes at which a cost per haystack byte that grows with the needle (a removed cap on the packed-pair needle length,
     Rabin-Karp let loose on long haystacks, lost Two-Way memory) exceeds the proved constant; run on the implementation only"""
     cases = []
+    # preprocessing alone: needles R^k t R^k t' (R the extreme byte value, the second run's terminator losing against the
+    # first) make a maximal/minimal-suffix scan that re-examines what it has just compared quadratic; the haystack is
+    # irrelevant, so these are the cheapest cases and come first  (seeded change C13-i)
+    for kk in (1 << 13, 1 << 15):
+        for (R_, t1, t2) in ((0x00, 0x01, 0x02), (0xff, 0x02, 0x01), (0x00, 0x02, 0x01), (0xff, 0x01, 0x02)):
+            x = bytes([R_]) * kk + bytes([t1]) + bytes([R_]) * kk + bytes([t2])
+            cases.append(f"mm f=find cfg=auto rank=default x={hexs(x)} h={hexs(b'q' * 100)}")
+            cases.append(f"mm f=rfind x={hexs(x[::-1])} h={hexs(b'q' * 100)}")
     for (N, m) in ((1 << 18, 1 << 16), (1 << 19, 1 << 17)):
         unit = b"a" * (m - 1) + b"b"
         cases.append(f"mm f=find cfg=auto rank=default x={hexs(b'a' * m)} h={hexs((unit * (N // m + 1))[:N])}")
